@@ -27,7 +27,11 @@ const (
 	gAtomic    = "atomic"    // only through sync/atomic operations (or fresh)
 	gAtomicSW  = "atomic-sw" // atomic; stores additionally need the shard write lock (or fresh)
 	gGroup     = "group"     // Group.mu
+	gToken     = "token"     // owned by the goroutine that took the stripe's batch token (CAS of Buffer.returned to nil)
 )
+
+// atomic pointer fields that act as ownership tokens: nil = taken
+var tokenFields = map[string]bool{"Buffer.returned": true}
 
 // guardTable: "Owner.field" -> domain. Taken from the comments in entry.go / store.go (DESIGN.md C19).
 var guardTable = map[string]string{
@@ -56,8 +60,9 @@ var guardTable = map[string]string{
 	"Store.cancel": gImmutable, "Store.maintenanceTicker": gPolicy, "Store.waitChan": gImmutable,
 	"LoadingStore.loader": gImmutable, "LoadingStore.Store": gImmutable,
 	"clock.Clock.now": gAtomic, "clock.Clock.Start": gFree,
+	"PolicyBuffers.Returned": gToken,
 	"Buffer.head": gAtomic, "Buffer.tail": gAtomic, "Buffer.returned": gAtomic, "Buffer.policyBuffers": gImmutable,
-	"Buffer.buffer": gAtomic, "PolicyBuffers.Returned": gFree,
+	"Buffer.buffer": gAtomic,
 	"UnsignedCounter.stripes": gImmutable, "UnsignedCounter.mask": gImmutable, "ptoken.idx": gFree, "ptoken.pad": gFree,
 	"Group.m": gGroup, "Group.mu": gFree, "Group.callPool": gFree,
 	"call.val": gFree, "call.err": gFree, "call.wg": gFree, "call.dups": gAtomic,
@@ -66,7 +71,7 @@ var guardTable = map[string]string{
 // types whose every field must carry an annotation (completeness obligation of C19)
 var guardedOwners = map[string]bool{"Entry": true, "Shard": true, "List": true, "Slru": true, "TinyLfu": true,
 	"CountMinSketch": true, "TimerWheel": true, "Store": true, "LoadingStore": true, "Buffer": true, "Group": true, "call": true,
-	"UnsignedCounter": true, "clock.Clock": true, "bf.Bloomfilter": true}
+	"UnsignedCounter": true, "clock.Clock": true, "bf.Bloomfilter": true, "PolicyBuffers": true}
 
 func guardOf(leaf string) (rule string, known bool, owner string) {
 	// leaf: Owner.field[.sub...][#arr|#len]
@@ -182,6 +187,8 @@ func (vc *VC) guardCheck(st *State, p place, sub string, write bool) {
 		}
 	case gGroup:
 		goal = or(fresh, vc.anyHeld(st, "Group.mu", false))
+	case gToken:
+		goal = or(fresh, vc.heapGet(st, "gh.token", SBool))
 	}
 	vc.guardOblige(st, goal, fmt.Sprintf("%s of %s requires its lock domain (%s)", mode, leaf, rule))
 }
